@@ -326,6 +326,36 @@ pub fn run(ctx: Arc<Ctx>) {
 			Err(e) => ctx.violation("pipeline cannot be built", &format!("{vpl}: {e}"), json!({"vpl": vpl})),
 		}
 	}
+	// overlays of the three sources under every assignment of stored compressions and every order (the overlay treats
+	// sources whose compression differs from the first one's on another path than the others)
+	{
+		let mut n = 0u64;
+		for assign in 0..27u32 {
+			let comps = [(assign % 3) as u8, (assign / 3 % 3) as u8, (assign / 9) as u8];
+			let enc = |src: &MemSource, comp: u8, name: &str| -> MemSource {
+				let tiles: TileMap = src.tiles.iter().map(|(k, v)| (*k, crate::codec::encode_with(comp, v))).collect();
+				MemSource::new(name, tiles, TileFormat::BIN, ct::comp_from_id(comp))
+			};
+			let cfac = pipeline::factory(vec![enc(&a, comps[0], "a"), enc(&b, comps[1], "b"), enc(&c, comps[2], "c")], &work.0);
+			for order in [[0usize, 1, 2], [0, 2, 1], [1, 0, 2], [1, 2, 0], [2, 0, 1], [2, 1, 0]] {
+				for k in [2usize, 3] {
+					if k == 2 && order[2] != *order.iter().max().unwrap() && assign % 2 == 1 {
+						continue;
+					}
+					let vpl = format!("from_overlayed [ {} ]", order[..k].iter().map(|i| m(*i)).collect::<Vec<_>>().join(", "));
+					match pipeline::build_op(&rt, &cfac, &vpl) {
+						Ok(op) => {
+							check_pyramid(&ctx, &rt, "pipeline", &vpl, &AnySrc::Op(op), &probe, false, json!({"vpl": vpl, "stored_compressions": comps}));
+							ctx.trace(1);
+							n += 1;
+						}
+						Err(e) => ctx.violation("pipeline cannot be built", &format!("{vpl} (stored compressions {comps:?}): {e}"), json!({"vpl": vpl, "stored_compressions": comps})),
+					}
+				}
+			}
+		}
+		ctx.outcome_n("overlays x stored compressions x orders", n);
+	}
 	ctx.exhaustive(true);
 	drop(work);
 }
